@@ -1,7 +1,7 @@
 (* C17 — visibility respects the view volume and occlusion: property theorems.
    Statements only; each is closed by [exact] of a lemma of coq/C17/VisibilityProofs.v. *)
 From Coq Require Import QArith List Bool.
-From Scenic Require Import C17.Vec C17.Visibility C17.VisibilityProofs.
+From Scenic Require Import C17.Vec C17.Visibility C17.VisibilityProofs C17.Grid C17.GridProofs.
 Import ListNotations.
 Open Scope Q_scope.
 
@@ -152,6 +152,136 @@ Theorem C17_default_requirements_occluders_refuted :
     In o objects /\ occluding o = true /\ oid o <> rsrc r /\ oid o <> rtgt r /\ ~ In o (rocc r).
 Proof. exact default_requirements_occluders_refuted. Qed.
 Print Assumptions C17_default_requirements_occluders_refuted.
+
+(* (5) objects, before any ray is cast (visibility.py:144-297).
+   (5a) `crosses` flags are sound: an edge of the target that properly crosses the viewer's x = 0 plane at a point
+   with y <= 0 (behind the viewer) / y >= 0 (ahead) sets target_crosses_behind / target_crosses_ahead. *)
+Theorem C17_crosses_flags_sound : forall (edges : list (vec * vec)) (a b : vec) (t : Q),
+  In (a, b) edges -> vx a * vx b < 0 ->
+  vx (lerp a b t) == 0 ->
+  (vy (lerp a b t) <= 0 -> snd (crosses edges) = true) /\
+  (0 <= vy (lerp a b t) -> fst (crosses edges) = true).
+Proof. exact crosses_flags_sound. Qed.
+Print Assumptions C17_crosses_flags_sound.
+
+(* (5b) vertex augmentation: every added point lies strictly inside a mesh edge, at the parameter t with
+   t (N + M) = N; that parameter is THE zero of the numerator of d/dt tan(altitude) along the edge (which is the
+   linear function N - (N + M) t), and an edge that gets no point has no interior stationary point. *)
+Theorem C17_extras_on_edges : forall (edges : list (vec * vec)) (p : vec),
+  In p (extras edges) ->
+  exists a b t, In (a, b) edges /\ 0 < t /\ t < 1 /\ p = lerp a b t /\
+                t * (alt_N a b + alt_M a b) == alt_N a b.
+Proof. exact extras_on_edges. Qed.
+Print Assumptions C17_extras_on_edges.
+
+Theorem C17_altitude_stationary_numerator : forall (a b : vec) (t : Q),
+  (vz b - vz a) * rho2 (lerp a b t)
+  - vz (lerp a b t) * ((vx b - vx a) * vx (lerp a b t) + (vy b - vy a) * vy (lerp a b t))
+  == alt_N a b - (alt_N a b + alt_M a b) * t.
+Proof. exact altitude_stationary_numerator. Qed.
+Print Assumptions C17_altitude_stationary_numerator.
+
+Theorem C17_no_extra_no_stationary : forall (a b : vec) (t : Q),
+  edge_t (a, b) = None -> 0 < t -> t < 1 ->
+  ~ (alt_N a b == 0 /\ alt_M a b == 0) ->
+  ~ (vz b - vz a) * rho2 (lerp a b t)
+    - vz (lerp a b t) * ((vx b - vx a) * vx (lerp a b t) + (vy b - vy a) * vy (lerp a b t)) == 0.
+Proof. exact no_extra_no_stationary. Qed.
+Print Assumptions C17_no_extra_no_stationary.
+
+(* (5c) the windows computed from the mesh (vertices + added points, flags from the edges) never discard a vertex
+   or added point lying strictly inside the view cone *)
+Theorem C17_object_windows_cover :
+  forall (PI : Q) (atan2 : Q -> Q -> Q) (asin : Q -> Q) (norm : vec -> Q)
+         (h v : Q) (verts : list vec) (edges : list (vec * vec)) (p : vec),
+  0 <= h / 2 -> h / 2 <= PI -> 0 <= v / 2 ->
+  In p (augment verts edges) ->
+  let az := fst (sph PI atan2 asin norm p) in
+  let alt := snd (sph PI atan2 asin norm p) in
+  - (h / 2) < az -> az < h / 2 -> - (v / 2) <= alt -> alt <= v / 2 ->
+  exists ws, object_windows PI atan2 asin norm h v verts edges = Some ws /\
+             exists w, In w ws /\ in_win w az alt.
+Proof. exact object_windows_cover. Qed.
+Print Assumptions C17_object_windows_cover.
+
+(* (6) the ray grid (visibility.py:299-350): np.linspace rows, ray counts from rayCount / rayDensity, azimuth count
+   scaled by cos(altitude).  Every ray lies in its window, and every ray of the whole pipeline lies within the
+   viewer's angular range (so no ray leaves the view volume), whatever the cos / atan2 / asin / norm oracles. *)
+Theorem C17_window_rays_inside :
+  forall (cos : Q -> Q) (h v rch rcv : Q) (altscale : bool) (w : window) (rays : list (Q * Q)) (az alt : Q),
+  window_rays cos h v rch rcv altscale w = Some rays -> In (az, alt) rays -> in_win w az alt.
+Proof. exact window_rays_inside. Qed.
+Print Assumptions C17_window_rays_inside.
+
+Theorem C17_linspace_shape : forall (lo hi : Q) (n : nat),
+  length (linspace lo hi n) = n /\
+  (lo <= hi -> forall x, In x (linspace lo hi n) -> lo <= x /\ x <= hi) /\
+  ((2 <= n)%nat -> (exists x, In x (linspace lo hi n) /\ x == lo) /\ (exists x, In x (linspace lo hi n) /\ x == hi)).
+Proof. exact linspace_shape. Qed.
+Print Assumptions C17_linspace_shape.
+
+Theorem C17_rays_inside_view :
+  forall (PI : Q) (cos : Q -> Q) (h v rch rcv : Q) (altscale ahead behind : bool)
+         (a0 : Q * Q) (angs : list (Q * Q)) (ws : list window) (rays : list (Q * Q)) (az alt : Q),
+  0 < PI -> 0 <= h / 2 -> 0 <= v / 2 ->
+  (forall a, In a (a0 :: angs) -> - PI <= fst a /\ fst a <= PI) ->
+  view_windows PI h v ahead behind a0 angs = Some ws ->
+  object_rays cos h v rch rcv altscale ws = Some rays ->
+  In (az, alt) rays ->
+  - (h / 2) <= az /\ az <= h / 2 /\ - (v / 2) <= alt /\ alt <= v / 2.
+Proof. exact rays_inside_view. Qed.
+Print Assumptions C17_rays_inside_view.
+
+Theorem C17_object_pipeline_rays_inside_view :
+  forall (PI : Q) (atan2 : Q -> Q -> Q) (asin : Q -> Q) (norm : vec -> Q) (cos : Q -> Q)
+         (h v rch rcv : Q) (altscale : bool) (verts : list vec) (edges : list (vec * vec))
+         (ws : list window) (rays : list (Q * Q)) (az alt : Q),
+  0 < PI -> 0 <= h / 2 -> 0 <= v / 2 ->
+  object_windows PI atan2 asin norm h v verts edges = Some ws ->
+  object_rays cos h v rch rcv altscale ws = Some rays ->
+  In (az, alt) rays ->
+  - (h / 2) <= az /\ az <= h / 2 /\ - (v / 2) <= alt /\ alt <= v / 2.
+Proof. exact object_pipeline_rays_inside_view. Qed.
+Print Assumptions C17_object_pipeline_rays_inside_view.
+
+(* (7) 2D compatibility mode (`_canSee2D` on a vector / point target; SectorRegion / CircularRegion.containsPoint,
+   viewAngleToPoint, normalizeAngle): visible iff in the same plane, within the visible distance of the camera, and
+   with bearing within viewAngle/2 of the heading modulo a full turn. *)
+Theorem C17_normalize_angle_spec : forall (PI : Q), 0 < PI -> forall a : Q,
+  - PI <= normalize_angle PI a /\ normalize_angle PI a <= PI /\
+  exists k : Z, normalize_angle PI a == a + 2 * PI * inject_Z k.
+Proof. exact normalize_angle_spec. Qed.
+Print Assumptions C17_normalize_angle_spec.
+
+Theorem C17_can_see_2d_iff :
+  forall (PI : Q), 0 < PI ->
+  forall (atan2 : Q -> Q -> Q) (norm : vec -> Q) (oriented : bool) (c : vec) (r heading angle : Q) (p : vec),
+  0 <= r -> is_norm (norm (vsub p c)) (vsub p c) ->
+  (can_see_2d PI atan2 norm oriented c r heading angle p = true <->
+   if oriented then in_sector PI atan2 c r heading angle p else in_disc c r p).
+Proof. exact can_see_2d_iff. Qed.
+Print Assumptions C17_can_see_2d_iff.
+
+(* non-vacuity of (5)-(7): a crossing edge behind the viewer sets the flag; an edge rising over the viewer gets an
+   added point; a small grid; a sector with a point ahead (seen) and one to the side (not seen) *)
+Example C17_flags_example :
+  crosses [(V3 (-1) (-2) 0, V3 1 (-2) 0)] = (false, true) /\
+  vx (lerp (V3 (-1) (-2) 0) (V3 1 (-2) 0) (1 # 2)) == 0.
+Proof. split; vm_compute; reflexivity. Qed.
+
+Example C17_extras_example :
+  extras [(V3 (-1) 2 1, V3 1 2 1)] = [V3 (0 # 2) (4 # 2) (2 # 2)] /\ extras [(V3 1 2 0, V3 2 2 0)] = [].
+Proof. split; vm_compute; reflexivity. Qed.
+
+Example C17_grid_example :
+  object_rays (fun _ => 1) 2 2 4 4 true [Win (-(1#2)) (1#2) 0 1] =
+  Some [(-1 # 2, 0); (1 # 2, 0); (-1 # 2, 1); (1 # 2, 1)].
+Proof. exact grid_example. Qed.
+
+Example C17_sector_example :
+  sector_contains toyPI toy_atan2 toy_norm (V3 1 1 0) 5 0 2 (V3 1 6 0) = true /\
+  sector_contains toyPI toy_atan2 toy_norm (V3 1 1 0) 5 0 2 (V3 6 1 0) = false.
+Proof. exact sector_example. Qed.
 
 (* non-vacuity: the oracle hypotheses of the first theorem are satisfiable (toy rational oracles on
    the F14 witness), and a window computation with a vertex inside the cone behind the viewer *)
